@@ -28,6 +28,7 @@ type jSet struct {
 	Live bool   `json:"live"`
 	Vals []jVal `json:"vals"`
 	Prop int    `json:"prop"` // cached Proposer pointer (0 = nil)
+	Pt   string `json:"pt"`   // what it points at: "nil" | "elem" | "detached" (a decoded set's own object)
 	Tvp  int64  `json:"tvp"`  // cached totalVotingPower (0 = not computed)
 	Gp   int    `json:"gp"`   // GetProposer()
 	Tot  int64  `json:"tot"`  // TotalVotingPower()
@@ -86,6 +87,7 @@ type rSet struct {
 	Live bool
 	Vals []rVal
 	Prop int      // 0 = nil
+	Pt   string   // "nil" | "elem" | "detached"
 	Tvp  *big.Int // 0 = not computed
 	Rot  bool     // ghost: only rotated since NewValidatorSet built it from zero accums
 }
@@ -147,7 +149,7 @@ func (m *machine) mulClip(a, b *big.Int) *big.Int {
 }
 
 func (s *rSet) clone() *rSet {
-	c := &rSet{Live: s.Live, Prop: s.Prop, Tvp: new(big.Int).Set(s.Tvp), Rot: s.Rot}
+	c := &rSet{Live: s.Live, Prop: s.Prop, Pt: s.Pt, Tvp: new(big.Int).Set(s.Tvp), Rot: s.Rot}
 	c.Vals = make([]rVal, len(s.Vals))
 	for i, v := range s.Vals {
 		c.Vals[i] = rVal{v.Addr, new(big.Int).Set(v.P), new(big.Int).Set(v.A), v.Cb}
@@ -155,7 +157,16 @@ func (s *rSet) clone() *rSet {
 	return c
 }
 
-func deadSet() *rSet { return &rSet{Tvp: big.NewInt(0)} }
+func deadSet() *rSet { return &rSet{Pt: "nil", Tvp: big.NewInt(0)} }
+
+// decode: what decoding the encoding of the set yields (Decode of the specification).
+func (s *rSet) decode() {
+	s.Pt = "nil"
+	if s.Prop != 0 {
+		s.Pt = "detached"
+	}
+	s.Tvp = big.NewInt(0)
+}
 
 func (m *machine) sumPow(s *rSet) *big.Int {
 	t := big.NewInt(0)
@@ -204,7 +215,7 @@ func (m *machine) step(s *rSet) {
 	}
 	x := maxIdx(s.Vals)
 	s.Vals[x].A = m.subClip(s.Vals[x].A, tot)
-	s.Prop = s.Vals[x].Addr
+	s.Prop, s.Pt = s.Vals[x].Addr, "elem"
 	s.Tvp = new(big.Int).Set(tot)
 }
 
@@ -223,7 +234,7 @@ func (m *machine) incCoded(s *rSet, k int) {
 	for i := 0; i < k; i++ {
 		x := maxIdx(s.Vals)
 		s.Vals[x].A = m.subClip(s.Vals[x].A, tot)
-		s.Prop = s.Vals[x].Addr
+		s.Prop, s.Pt = s.Vals[x].Addr, "elem"
 	}
 	s.Tvp = new(big.Int).Set(tot)
 }
@@ -237,7 +248,7 @@ func (m *machine) inc(s *rSet, k int) {
 }
 
 func (m *machine) newSet(list []rVal) *rSet {
-	s := &rSet{Live: true, Tvp: big.NewInt(0), Rot: true}
+	s := &rSet{Live: true, Pt: "nil", Tvp: big.NewInt(0), Rot: true}
 	for _, v := range list {
 		s.Vals = append(s.Vals, rVal{v.Addr, new(big.Int).Set(v.P), new(big.Int).Set(v.A), v.Cb})
 		if v.A.Sign() != 0 {
@@ -260,7 +271,7 @@ func searchIdx(vs []rVal, ad int) int {
 	return len(vs)
 }
 
-func (s *rSet) invalidate() { s.Prop = 0; s.Tvp = big.NewInt(0); s.Rot = false }
+func (s *rSet) invalidate() { s.Prop = 0; s.Pt = "nil"; s.Tvp = big.NewInt(0); s.Rot = false }
 
 func (m *machine) add(s *rSet, v rVal) bool {
 	i := searchIdx(s.Vals, v.Addr)
@@ -351,6 +362,15 @@ func (m *machine) applyRef(st *rState, a jAct, conv func(jVal) rVal) (ok bool, e
 		st.B = deadSet()
 	case "drop":
 		st.B = deadSet()
+	case "reload":
+		t := st.A
+		if a.T == "B" {
+			t = st.B
+		}
+		if !t.Live || len(t.Vals) == 0 {
+			return false, fmt.Errorf("reload of a holder without validators")
+		}
+		t.decode()
 	case "ustat":
 		l := make([]rVal, len(a.List))
 		for i, v := range a.List {
@@ -368,7 +388,7 @@ func (m *machine) applyRef(st *rState, a jAct, conv func(jVal) rVal) (ok bool, e
 func convPlain(v jVal) rVal { return rVal{v.Addr, big.NewInt(v.P), big.NewInt(v.A), v.Cb} }
 
 func refFromJSON(j jSet) *rSet {
-	s := &rSet{Live: j.Live, Prop: j.Prop, Tvp: big.NewInt(j.Tvp)}
+	s := &rSet{Live: j.Live, Prop: j.Prop, Pt: j.Pt, Tvp: big.NewInt(j.Tvp)}
 	for _, v := range j.Vals {
 		s.Vals = append(s.Vals, convPlain(v))
 	}
@@ -391,6 +411,9 @@ func (m *machine) sameAsJSON(s *rSet, j jSet) string {
 	}
 	if s.Prop != j.Prop {
 		return fmt.Sprintf("cached proposer %d vs %d", s.Prop, j.Prop)
+	}
+	if s.Pt != j.Pt {
+		return fmt.Sprintf("cached proposer points at %q vs %q", s.Pt, j.Pt)
 	}
 	if s.Tvp.Cmp(big.NewInt(j.Tvp)) != 0 {
 		return fmt.Sprintf("cached total %s vs %d", s.Tvp, j.Tvp)
